@@ -752,11 +752,11 @@ package raft
 //@   requires request != nil && response != nil
 //@   let X = request.LastIncludedIndex
 //@   let T = request.LastIncludedTerm
-// A-ES and A-LM are facts about the cluster that hold at any time; the handler first waits for an
-// operation that is being applied (the lock is released there), so they are attached to the first
-// statement after that wait rather than to the function entry.
-//@   at call r.logger.Debugf assume [A-ES] request.Term == r.currentTerm ==> r.state != Leader
-//@   at call r.logger.Debugf assume [A-LM] request.Term >= r.currentTerm && X <= r.commitIndex && inLog(X) ==> Lterm[X] == T
+// A-ES and A-LM are facts about the cluster that hold at any time: `assume` clauses are assumed at
+// entry and again after every re-acquisition of the lock (the handler first waits for an operation
+// that is being applied).
+//@   assume [A-ES] request.Term == r.currentTerm ==> r.state != Leader
+//@   assume [A-LM] request.Term >= r.currentTerm && X <= r.commitIndex && inLog(X) ==> Lterm[X] == T
 //@   ensures [IS.shutdown] err != nil ==> Llast == old(Llast) && Lfirst == old(Lfirst) && r.commitIndex == old(r.commitIndex) && r.lastApplied == old(r.lastApplied) && r.currentTerm == old(r.currentTerm) && r.votedFor == old(r.votedFor)
 //@   ensures [IS.stale-term] err == nil && request.Term < entry(r.currentTerm) && old(r.state) != Shutdown ==> response.Term >= request.Term
 //@   ensures [IS.term-reply] err == nil ==> response.Term >= entry(r.currentTerm) && response.Term <= r.currentTerm && r.currentTerm >= entry(r.currentTerm)
